@@ -285,6 +285,15 @@ class DAG(nx.DiGraph):
             for edge in ebunch:
                 self.add_edge(edge[0], edge[1])
 
+    def copy(self, as_view=False):
+        """
+        Returns a copy of the graph; the set of latent variables is copied as well.
+        """
+        dag = super(DAG, self).copy(as_view=as_view)
+        if not as_view:
+            dag.latents = set(self.latents)
+        return dag
+
     def get_parents(self, node):
         """
         Returns a list of parents of node.
